@@ -7,6 +7,8 @@ def run(m, tier):
     results.append(regex_rules.c15_flow_rule(m))
     from rules import order_rules
     results.append(order_rules.option_forwarding_rule(m, "C15.R4"))
+    from rules import reader_rules
+    results.append(reader_rules.rule_continuation(m, "C15.R5", omp=True))
     expl = ("Decides structural clauses of C15: the three sentinel regex literals built in set_format (folded statically) accept "
             "exactly the sentinel forms of the property ('!$', 'c$', 'C$', '*$' in columns 1-2 plus a valid label/continuation field in "
             "fixed form; '!$ ' after optional blanks in free form) and reject '!$omp'-style directives; group 1 is the 2-character "
